@@ -221,6 +221,44 @@ def h_large(ctx, side, total):
   ctx.witness('done')
 
 
+def h_switch_err(ctx, cuts, ncuts=0):
+  """Switch side, a stream in which one message is of an unsupported type (rejected with an error from its header) and the handler fails for
+  another one: [echo request, echo reply (handler raises), barrier request, type 99, echo request], cut at symbolic positions.  Every
+  well-formed message of a known type is handed to the handler exactly once, in order, whatever the cuts; the unsupported one draws exactly
+  one BAD_REQUEST / BAD_TYPE error with its xid; nothing escapes the receive path; nothing is left in the buffer."""
+  core = env.get_core()
+  iow = ctx.pox('pox.lib.ioworker'); sw = ctx.pox('pox.datapaths.switch'); of = ctx.pox('pox.openflow.libopenflow_01')
+  xs = [ctx.int('xid%d' % i, 0, 0xffffffff) for i in range(5)]
+  b1 = ctx.bytes('body1', 2); b3 = ctx.bytes('body3', 4)
+  msgs = [hdr(2, 10, xs[0]) + list(b1), hdr(3, 8, xs[1]), hdr(18, 8, xs[2]), hdr(99, 12, xs[3]) + list(b3), hdr(2, 8, xs[4])]
+  stream = env.tobytes(ctx, [x for m in msgs for x in m])
+  w = iow.IOWorker(); w.socket = env.FakeSocket(eof=False)
+  c = sw.OFConnection(w)
+  delivered = []
+  def handler(con, msg):
+    delivered.append((msg.header_type, msg.xid))
+    if msg.header_type == 3: raise RuntimeError("handler failure")
+  c.set_message_handler(handler)
+  escaped = None
+  for step, ch in enumerate(chunks_of(ctx, stream, cuts, ncuts)):
+    if len(ch) == 0: continue
+    try:
+      w._push_receive_data(ch)
+    except Exception as ex:
+      if type(ex).__module__.startswith('symx'): raise
+      escaped = ex; break
+  ctx.check('nothing escapes the receive path', escaped is None)
+  exp = [(2, xs[0]), (3, xs[1]), (18, xs[2]), (2, xs[4])]
+  ctx.check('known-type messages delivered once each, in order', len(delivered) == len(exp) and all(a[0] == b[0] and bool(a[1] == b[1]) for a, b in zip(delivered, exp)))
+  ctx.check('residual empty', len(w.receive_buf) == 0)
+  out = w.send_buf
+  ctx.check('exactly one error reply: BAD_REQUEST / BAD_TYPE with the xid of the unsupported message, quoting it',
+            len(out) == 12 + 12 and ctx.And(out[1] == 1, ((out[2] << 8) | out[3]) == 24, ((out[4] << 24) | (out[5] << 16) | (out[6] << 8) | out[7]) == xs[3],
+                                            ((out[8] << 8) | out[9]) == 1, ((out[10] << 8) | out[11]) == 1) and ctx.Eq(out[12:], env.tobytes(ctx, msgs[3])))
+  ctx.check('not closed', not w.closed and not w._shutdown_send)
+  ctx.witness('done')
+
+
 def h_live(ctx, tail, cuts, ncuts=0):
   """Controller side with its real handler tables (the handshake handlers replace themselves by the default ones when the barrier reply
   arrives): hello and features reply first, then one stream - the awaited barrier reply followed by asynchronous messages - cut at
@@ -314,6 +352,8 @@ def obligations(tier):
     if thorough or tail == ['packet_in', 'barrier']: live.append(dict(tail=tail, cuts='sym', ncuts=2))
     if thorough: live.append(dict(tail=tail, cuts='dribble'))
   return [
+    Obligation('O6_switch_errors', h_switch_err, [dict(cuts='sym', ncuts=1), dict(cuts='dribble'), dict(cuts=[])] + ([dict(cuts='sym', ncuts=2)] if thorough else []), witnesses=('done',), max_decisions=50000, conc_cap=400,
+               desc='switch side: an unsupported type and a failing handler in the middle of a stream, every segmentation'),
     Obligation('O5_live_handlers', h_live, live, witnesses=('done',), max_decisions=50000, conc_cap=400,
                desc='controller with its real handler tables: the barrier reply that ends the handshake and the messages behind it, every segmentation'),
     Obligation('O1_controller', h_controller, ctl, witnesses=('done',), max_decisions=50000, conc_cap=400,
